@@ -1110,4 +1110,10 @@ SEEDS = [
         let mut shift = 32;
         for _ in 0..6 {
             let mut lt = shift + 1;""", note='the first pair of every level is left out of the closure'),
+
+    dict(id='HM14-bititer-keeps-bit', props=['C15', 'C03'], file='src/seg/heap.rs', old="""        self.value &= self.value - 1;""", new="""        self.value &= self.value.wrapping_sub(2);""", note='the place just returned is not taken off the mask when it is bit 0'),
+    dict(id='HM15-bititer-highest-first', props=['C15', 'C03'], file='src/seg/heap.rs', old="""        let pos = self.value.trailing_zeros() as usize;""", new="""        let pos = (63 - self.value.leading_zeros()) as usize;""", note='the place returned is not the one removed'),
+    dict(id='HM16-bititer-stops-early', props=['C15', 'C03'], file='src/seg/heap.rs', old="""        if self.value == 0 {
+            return None;""", new="""        if self.value <= 1 {
+            return None;""", note='the root place is never visited'),
 ]
